@@ -10,6 +10,8 @@ bad = 0
 for i in ids:
     d = os.path.join(V, 'seeded', i)
     meta = json.load(open(os.path.join(d, 'meta.json')))
+    if meta.get('retired'):
+        print(f"{i}: retired — {meta['retired'][:120]}"); continue
     checks = meta.get('confirmed', {}).get('detected_by') or [meta['property']]
     r = subprocess.run([sys.executable, os.path.join(V, 'tools', 'eval_mutant.py'), d, '--seeds', '0,1,2', '--skip-baseline', '--no-demo',
                         '--checks', ','.join(checks)], stdout=subprocess.PIPE, stderr=subprocess.STDOUT)
